@@ -186,6 +186,9 @@ func (k Keeper) DecodeDepositReportValue(ctx context.Context, reportValue string
 	}
 	amountDecimalConverted := amountBigInt.Div(amountBigInt, big.NewInt(1e12))
 	tipDecimalConverted := tipBigInt.Div(tipBigInt, big.NewInt(1e12))
+	if !amountDecimalConverted.IsInt64() || !tipDecimalConverted.IsInt64() {
+		return nil, sdk.Coins{}, sdk.Coins{}, errors.New("deposit amount out of range")
+	}
 	amountCoin := sdk.NewInt64Coin(layer.BondDenom, amountDecimalConverted.Int64())
 	amountCoins := sdk.NewCoins(amountCoin)
 	tipCoin := sdk.NewInt64Coin(layer.BondDenom, tipDecimalConverted.Int64())
